@@ -23,6 +23,10 @@ enum FOp {
     Wr(WrOp),
     Enq(u16, usize),
     Pop,
+    /// clear_write_buffer()
+    Clear,
+    /// set_payload_max_size(n) in the middle of the history
+    SetLimit(usize),
 }
 
 #[derive(Clone, Debug)]
@@ -47,6 +51,8 @@ fn fop_to_json(o: &FOp) -> J {
         FOp::Wr(WrOp::Zero) => J::Arr(vec![json::s("write_zero")]),
         FOp::Enq(c, n) => J::Arr(vec![json::s("enqueue"), json::u(*c as usize), json::u(*n)]),
         FOp::Pop => J::Arr(vec![json::s("pop")]),
+        FOp::Clear => J::Arr(vec![json::s("clear_write_buffer")]),
+        FOp::SetLimit(n) => J::Arr(vec![json::s("set_payload_max_size"), json::u(*n)]),
     }
 }
 
@@ -71,6 +77,8 @@ fn fop_from_json(j: &J) -> Result<FOp, String> {
         "write_zero" => FOp::Wr(WrOp::Zero),
         "enqueue" => FOp::Enq(num(1)? as u16, num(2)?),
         "pop" => FOp::Pop,
+        "clear_write_buffer" => FOp::Clear,
+        "set_payload_max_size" => FOp::SetLimit(num(1)?),
         _ => return Err(format!("unknown op {}", k)),
     })
 }
@@ -220,7 +228,7 @@ impl Prop for C03 {
         let nops = rng.range(3, 120);
         let mut ops = Vec::new();
         for _ in 0..nops {
-            ops.push(match rng.weighted(&[40, 5, 5, 3, 3, 14, 4, 3, 2, 2, 2, 10, 7]) {
+            ops.push(match rng.weighted(&[40, 5, 5, 3, 3, 14, 4, 3, 2, 2, 2, 10, 7, 2, 2]) {
                 0 => FOp::Rd(RdOp::Data(
                     match rng.below(5) {
                         0 => 1,
@@ -246,7 +254,9 @@ impl Prop for C03 {
                 9 => FOp::Wr(WrOp::Reset),
                 10 => FOp::Wr(WrOp::Zero),
                 11 => FOp::Enq(*rng.pick(&crate::model::STATUS_CODES), rng.below(300)),
-                _ => FOp::Pop,
+                12 => FOp::Pop,
+                13 => FOp::Clear,
+                _ => FOp::SetLimit(*rng.pick(&[0usize, 1, 5, 1024, 51200, 4294967296, usize::MAX])),
             });
         }
         FuzzCase { limit, stream, ops }.to_json()
@@ -332,6 +342,20 @@ impl Prop for C03 {
                     sig.u(30);
                     if catch_unwind(AssertUnwindSafe(|| conn.c.enqueue_response(resp))).is_err() {
                         return viol("panic", i, "enqueue_response panicked".into(), &sig);
+                    }
+                }
+                FOp::Clear => {
+                    st.lib_calls += 1;
+                    sig.u(50);
+                    if catch_unwind(AssertUnwindSafe(|| conn.c.clear_write_buffer())).is_err() {
+                        return viol("panic", i, "clear_write_buffer panicked".into(), &sig);
+                    }
+                }
+                FOp::SetLimit(n) => {
+                    st.lib_calls += 1;
+                    sig.u(51);
+                    if catch_unwind(AssertUnwindSafe(|| conn.c.set_payload_max_size(*n))).is_err() {
+                        return viol("panic", i, "set_payload_max_size panicked".into(), &sig);
                     }
                 }
                 FOp::Pop => {
